@@ -1,5 +1,7 @@
 from contracts.drillhole import CONTRACTS as _C
-CONTRACTS = list(_C)
+from contracts.concat import DeleteIndexData, FetchIndex, FetchValues, FetchStartIndex, UpdateArrayAttribute
+# a hole of a drillhole group keeps its survey table as a slice of the group's 'Surveys' array: the positions follow *its* rows
+CONTRACTS = list(_C) + [DeleteIndexData, FetchIndex, FetchValues, FetchStartIndex, UpdateArrayAttribute]
 
 MANIFEST = {
     "category": "proof",
